@@ -18,7 +18,9 @@ RULE = ("universe = %d fixed boundary/hostile values (0, +-1, +-2^31, +-2^31+-1,
         "random tail of ints/floats/numeric strings around the boundaries; each value x {result coercion, input coercion, "
         "literal coercion} x {Int, Float, String, Boolean, ID} (+ Date/Time/DateTime on well-formed values), evaluated (a) "
         "on the scalar objects attached to a built schema and (b) through echo fields of Engine.execute (resolver return, "
-        "variable, literal) with (a)=(b) cross-checked. Oracle = three-valued law tables from the spec (must-accept with "
+        "variable, literal; every accepted variable also nested in a [S!] list literal and an {f: S!} object literal; every "
+        "valid literal also as SDL default of an omitted argument / input field, literal- and variable-object routes) with "
+        "(a)=(b) cross-checked. Oracle = three-valued law tables from the spec (must-accept with "
         "pinned value / must-reject / either-with-pinned-value), wire-type and value-denotation checks on every produced "
         "result, literal=variable on natural kinds, idempotence in(out(x)) and out(in(j)). non-trivial = (scalar, "
         "direction, value) triple; distinct by that triple")
